@@ -283,6 +283,8 @@ func (c *Ctx) frameItems(ct *Contract, names calleeNames, args []Val, st *State)
 
 func arrFieldIdList() []int {
 	var ks []int
+	arrFieldMu.Lock()
+	defer arrFieldMu.Unlock()
 	for _, k := range arrFieldIds {
 		ks = append(ks, k)
 	}
